@@ -66,10 +66,7 @@ func propC17(r *kernel.Run) {
 	pool := []string{"boundary-worker", "proto-b", "proto-c", nodenet.AuthenticatedNonSpecificNextProto, nodenet.UnauthenticatedNextProto}
 	subs := map[string]*subListener{}
 	var names []string
-	for _, n := range pool {
-		if tp.Draw(2) == 0 {
-			continue
-		}
+	registerSub := func(n string) {
 		native := tp.Draw(2) == 0
 		ln, err := sl.GetListener(n, nodeenrollment.WithNativeConns(native))
 		if err != nil {
@@ -85,6 +82,7 @@ func propC17(r *kernel.Run) {
 		s := &subListener{name: n, native: native, ln: ln}
 		subs[n] = s
 		names = append(names, n)
+		sort.Strings(names)
 		r.Sched.Go("sub:"+n, "sub-acceptor", func() {
 			for {
 				c, err := ln.Accept()
@@ -95,6 +93,12 @@ func propC17(r *kernel.Run) {
 				}
 			}
 		})
+	}
+	for _, n := range pool {
+		if tp.Draw(2) == 0 {
+			continue
+		}
+		registerSub(n)
 	}
 	sort.Strings(names)
 	var startErr error
@@ -149,6 +153,20 @@ func propC17(r *kernel.Run) {
 	var hist []string
 	for ci := 0; ci < ncl; ci++ {
 		kind := Pick2(tp, "authenticated", "authenticated", "authenticated", "base-tls", "base-tls", "base-tls", "fetch-only", "garbage")
+		// sub-listeners may also be obtained while the split listener is already running
+		if tp.Draw(5) == 0 {
+			var left []string
+			for _, n := range pool {
+				if subs[n] == nil {
+					left = append(left, n)
+				}
+			}
+			if len(left) > 0 {
+				registerSub(left[tp.Draw(len(left))])
+				w.Quiesce()
+				r.Count("ops.late_get_listener", 1)
+			}
+		}
 		several := false
 		if ci == ncl-1 {
 			// last client: an authenticated client whose extras may match several registered sub-listeners. Which one
